@@ -286,3 +286,20 @@ func verifLemmaSolexaEncDec(q Qsolexa) Qsolexa { return Solexa.DecodeToQsolexa(q
 //@   loop 2 invariant 1 <= i && len(r) == count && fresh(r) && forall k int :: 0 <= k && k < i && k < len(r) ==> r[k] == ql
 //@   loop 2 writes fresh
 //@   loop 2 decreases len(r) - i
+
+// ---- letter index as seen through the interface (C09: aligners) ----
+// alphaLen(a): number of letters; lidx(a, b): index of byte b in the alphabet or -1.
+//@ spec alphaLen(a Alphabet) int
+//@ spec lidx(a Alphabet, b int) int
+//@ axiom forall a Alphabet, b int {lidx(a, b)} :: -1 <= lidx(a, b) && lidx(a, b) < alphaLen(a)
+//@ func (Alphabet).Len
+//@   pure
+//@   ensures result == alphaLen(self) && result >= 0
+// idxRef(a): identity of the alphabet's internal index array (part of the alphabet value, never a later allocation).
+//@ spec idxRef(a Alphabet) int
+//@ func (Alphabet).LetterIndex
+//@   pure
+//@   ensures result != nil && ref(result) == idxRef(self) && forall b int :: 0 <= b && b < 256 ==> result[b] == lidx(self, b)
+//@ func (Alphabet).IndexOf
+//@   pure
+//@   ensures result == lidx(self, arg0)
